@@ -155,9 +155,13 @@ class Verifier(Engine):
     def exec_stmt(self, node: ast.stmt, st: State):
         if self.c.abstract_stmts:
             txt = ast.unparse(node)
-            if txt in self.c.abstract_stmts:
-                self._abstract_used.add(txt)
-                self.frame_check(node, txt if len(txt) < 60 else txt[:57] + "...", self.c.abstract_stmts[txt])
+            key = txt if txt in self.c.abstract_stmts else None
+            if key is None:
+                # a key ending in " ..." abstracts the statement that starts with it (its frame is still checked)
+                key = next((k for k in self.c.abstract_stmts if k.endswith(" ...") and txt.startswith(k[:-4])), None)
+            if key is not None:
+                self._abstract_used.add(key)
+                self.frame_check(node, txt if len(txt) < 60 else txt[:57] + "...", self.c.abstract_stmts[key])
                 return [("normal", st, None)]
         m = getattr(self, "s_" + type(node).__name__, None)
         if m is None:
